@@ -9,6 +9,7 @@ pub struct Cfg {
     pub seed: u64,
     pub thorough: bool,
     pub only: Option<usize>,
+    pub from: usize,
     pub scale: usize,
 }
 const FILL: u8 = 0x6B;
@@ -142,15 +143,34 @@ pub fn run(reg: &[Box<dyn TypeOps>], cfg: &Cfg, out: &mut dyn Write) {
     let mut ar = Arena::new(1);
     for (tid, t) in reg.iter().enumerate() {
         if let Some(o) = cfg.only { if o != tid { continue; } }
+        if tid < cfg.from { continue; }
         let sh = parse(t.desc());
         if !matches!(sh, Shape::Vec(..) | Shape::Str(..) | Shape::Flex(..)) { continue; }
         let mut rng = Rng::new(cfg.seed ^ ((tid as u64 + 1) * 0x2545F491));
         let al = t.align();
-        let n_hist = cfg.scale * if cfg.thorough { 60 } else { 10 };
+        // boundary histories for 1-byte offset types: an item whose link offset lands on / next to `L::MAX`, then another push
+        let mut boundary: Vec<Vec<Op>> = vec![];
+        if let Shape::Flex(e, l) = &sh {
+            if l.size == 1 {
+                for n in 244..=256usize {
+                    let item = match &**e {
+                        Shape::Vec(ee, _) if ee.size() == 1 => Some(D::VecIter((0..n).map(|i| gen_sized(ee, &mut Rng::new(i as u64))).collect())),
+                        Shape::Str(_) => Some(D::StrFrom(vec![b'a'; n])),
+                        _ => None,
+                    };
+                    if let Some(it) = item {
+                        let small = gen_init(e, &mut rng, 1);
+                        boundary.push(vec![Op::FPush(small.clone()), Op::FPush(it), Op::FPush(small.clone()), Op::FPop, Op::FPush(small)]);
+                    }
+                }
+            }
+        }
+        let n_hist = boundary.len() + cfg.scale * if cfg.thorough { 60 } else { 10 };
         let n_steps = if cfg.thorough { 60 } else { 25 };
         for h in 0..n_hist {
             // buffer sizes: from the minimum to comfortably large; sometimes beyond what a u8 length can count
-            let room = t.min_size() + match rng.below(6) { 0 => rng.below(3) as usize, 1 => rng.below(12) as usize, 2 | 3 => 8 + rng.below(40) as usize, 4 => 40 + rng.below(120) as usize, _ => 250 + rng.below(120) as usize };
+            let scripted: Option<Vec<Op>> = if h < boundary.len() { Some(boundary[h].clone()) } else { None };
+            let room = if scripted.is_some() { 700 } else { t.min_size() + match rng.below(6) { 0 => rng.below(3) as usize, 1 => rng.below(12) as usize, 2 | 3 => 8 + rng.below(40) as usize, 4 => 40 + rng.below(120) as usize, _ => 250 + rng.below(120) as usize } };
             let place = if (PAGE - room) % al == 0 && h % 2 == 0 { Place::End } else { Place::Mid(0) };
             let mut state = rng.bytes(room);
             // start from the default (empty) container emplaced on garbage
@@ -163,8 +183,9 @@ pub fn run(reg: &[Box<dyn TypeOps>], cfg: &Cfg, out: &mut dyn Write) {
             let mut abs = match sh { Shape::Vec(..) => D::VecIter(vec![]), Shape::Str(..) => D::StrFrom(vec![]), _ => D::FlexIter(vec![]) };
             let p0 = probe_str(t.as_ref(), { let (_, sl) = ar.place(&state, place, FILL); sl });
             let cap0 = top_cap(&p0);
-            for _ in 0..n_steps {
-                let op = gen_op(&sh, &abs, &mut rng, 0);
+            let steps = scripted.as_ref().map(|v| v.len()).unwrap_or(n_steps);
+            for step in 0..steps {
+                let op = match &scripted { Some(v) => v[step].clone(), None => gen_op(&sh, &abs, &mut rng, 0) };
                 let a16 = a16_of(&ar, place, room);
                 write!(out, "O {} {} {} {} {} => ", tid, pc(place), a16, hex(&state), op.text()).unwrap();
                 out.flush().unwrap();
